@@ -531,6 +531,14 @@ func (eng *Engine) invariantUnstable(inv *Axiom) []string {
 	return bad
 }
 
+func (eng *Engine) allSpecsRevealed() map[string]bool {
+	m := map[string]bool{}
+	for n := range eng.contracts.Specs {
+		m[n] = true
+	}
+	return m
+}
+
 // specFootprint: heap keys read by the (fully unfolded) body of a spec function.
 func (eng *Engine) specFootprint(sf *SpecFunc) []string {
 	ex := newExec(eng, nil, nil)
